@@ -1,5 +1,6 @@
 """C04 — Non-dominated sorting returns the exact Pareto ranking (deap/tools/emo.py)."""
 import itertools
+import math
 from fractions import Fraction as Fr
 
 from lib import Case
@@ -10,19 +11,27 @@ ANCHORS = [("deap/tools/emo.py", ["sortNondominated", "sortLogNondominated", "so
                                   "splitA", "splitB", "sweepA", "sweepB", "median", "identity", "isDominated"]),
            ("deap/base.py", ["Fitness"])]
 LEVEL = "proof"
-RULE = ("exhaustive: every multiset of n<=4 (quick; m=3: n<=3 plus a sample of n=4 / thorough: n<=4 all, n=5 all for m<=2 and a "
-        "40% sample for m=3) individuals over {0,1,2}^m, m<=3, in a random order (all orders for n<=3, m<=2), every k in 0..n+1, "
-        "both first_front_only values, both procedures (log-time for m>=2), weight signs mixed at random; random: n<=40, m<=6, "
-        "grid widths 2/3/8 and dyadic values, duplicates, chains, antichains. Non-trivial = a population with at least two "
-        "individuals")
+RULE = ("exhaustive part: every multiset of n individuals over {0,1,2}^m in one random order (all distinct orders only for "
+        "n<=3 and m<=2), every k in 0..n+1, both first_front_only values, both procedures (log-time for m>=2), weight "
+        "signs/magnitudes drawn per case -- quick: m<=2 complete for n<=4; m=3 complete for n<=3 plus a 6% random sample of the "
+        "27405 multisets of n=4 -- thorough: n<=4 complete for m<=3, n=5 complete for m<=2 and a 40% sample for m=3. "
+        "near-tie part: values 0..3 ulps apart around non-dyadic doubles (0.3 vs 0.1+0.2, 1000.004, ...), weights +-1, exact "
+        "bit patterns transported as rationals, n<=12, m<=4. random part (families cycled round-robin, so every seed runs every "
+        "family): n<=40, m<=6, grids of width 2/3/8, dyadic values, chains, antichains, duplicates, layers, one varying "
+        "objective. Non-trivial = a population with at least two individuals")
 EXHAUSTIVE = {"quick": False, "thorough": False}
 TIME_BUDGET = {"quick": 55, "thorough": 840}
+CASE_TIMEOUT = 2           # sorting <= 40 individuals takes milliseconds; 2 s without an answer is a hang
+MIN_CASES = 40             # a hanging implementation costs CASE_TIMEOUT per case: 40 cases still fit the budget
 TRUSTED = ["IEEE-754: value*weight of the small dyadic inputs used here is exact, so the Rat model and the float "
            "implementation sort the same numbers",
            "CPython dict insertion order, list.sort/sorted stability, bisect.bisect_right, tuple comparison "
            "(modelled in Core/NDSort.lean and Core/Py.lean; exercised by every line)"]
 ASSUMPTIONS = ["all fitnesses of a population have the same number of objectives (>= 1; >= 2 for sortLogNondominated), "
                "finite values (no NaN), non-zero weights, k >= 0",
+               "weighted values small enough that the sum of two of them does not overflow (|v| < ~8.9e307): the median "
+               "(a+b)/2.0 of sortLogNondominated becomes inf beyond that, splitA returns its input and the real code ends in "
+               "RecursionError; the theorems are over an ordered field and do not see overflow",
                "individuals are distinct objects (an object listed twice is outside 'appearing once')"]
 EXPLANATION = ("C04.sortStd_eq_peel and C04.sortLog_eq_peel prove that the models of sortNondominated and of "
                "sortLogNondominated (at least two objectives, ordered field) terminate and return the leading fronts of the "
@@ -246,8 +255,10 @@ def dyadic(rng):
     return sfr(Fr(rng.randint(-64, 64), rng.choice([1, 1, 2, 4, 8])))
 
 
-def random_pop(rng, n, m):
-    kind = rng.choice(["grid2", "grid3", "grid3", "grid8", "dyadic", "chain", "antichain", "dups", "layers", "onecol"])
+KINDS = ["grid2", "grid3", "grid8", "dyadic", "chain", "antichain", "dups", "layers", "onecol", "grid3"]
+
+
+def random_pop(rng, n, m, kind):
     if kind.startswith("grid"):
         wdt = int(kind[4:])
         pop = [[rng.randrange(wdt) for _ in range(m)] for _ in range(n)]
@@ -302,21 +313,50 @@ def random_pop(rng, n, m):
 def random_cases(tier, rng, mult):
     thorough = tier == "thorough"
     count = (12000 if thorough else 1300) * mult
-    for _ in range(count):
-        m = rng.choice([1, 2, 2, 2, 3, 3, 3, 4, 5, 6])
+    ms = [2, 3, 1, 2, 4, 3, 5, 2, 6, 3, 2]
+    for it in range(count):
+        m = ms[it % len(ms)]
         n = rng.choice([1, 2, 3, 5, 6, 8, 10, 12, 16, 20, 25, 30, 40]) if rng.random() < 0.8 else rng.randint(1, 40)
-        kind, pop = random_pop(rng, n, m)
+        kind, pop = random_pop(rng, n, m, KINDS[it % len(KINDS)])
         ks = sorted(set([0, 1, n - 1, n, n + 1, rng.randint(0, n + 1), rng.randint(0, n + 1), max(0, n // 2)]))
         ks = [k for k in ks if k >= 0]
         yield case(rand_weights(rng, m), pop, ks, "rand/%s/m=%d" % (kind, m))
 
 
+NEAR_BASES = [0.3, 0.1 + 0.2, 0.7, 1.1, 2.675, 1e-3, 1000.004, 123456.789]
+
+
+def ulps(x, j):
+    for _ in range(abs(j)):
+        x = math.nextafter(x, math.inf if j > 0 else -math.inf)
+    return x
+
+
+def neartie_cases(tier, rng, mult):
+    """values a few ulps apart (never exactly representable as small dyadics): a tolerance in any comparison of the
+    sorting code changes the ranking here; the model compares the exact bit patterns as rationals"""
+    count = (4000 if tier == "thorough" else 420) * mult
+    ms = [2, 3, 2, 4, 1, 2, 3]
+    for it in range(count):
+        m = ms[it % len(ms)]
+        n = [2, 3, 4, 6, 8, 12][it % 6]
+        bases = [rng.sample(NEAR_BASES, 2) for _ in range(m)]
+        pop = []
+        for _ in range(n):
+            pop.append([sfr(Fr(ulps(rng.choice(bases[i]), rng.randint(-3, 3) if rng.random() < 0.8 else 0)))
+                        for i in range(m)])
+        w = [rng.choice(["1", "-1"]) for _ in range(m)]
+        ks = list(range(0, n + 2)) if n <= 6 else sorted(set([0, 1, n // 2, n - 1, n, n + 1]))
+        yield case(w, pop, ks, "neartie/m=%d" % m)
+
+
 def generate(tier, rng, mult):
-    # interleave so that a time-limited run sees both parts
+    # interleave so that a time-limited run sees all parts
     ex = exhaustive(tier, rng, mult)
     rd = random_cases(tier, rng, mult)
-    alive = [ex, rd]
-    ratio = [12, 1]
+    nt = neartie_cases(tier, rng, mult)
+    alive = [ex, nt, rd]
+    ratio = [24, 1, 2]
     while alive:
         for g, r in list(zip(alive, ratio)):
             for _ in range(r):
@@ -355,7 +395,7 @@ def shrink(d):
             yield e
     for i, p in enumerate(d["pop"]):
         for j, x in enumerate(p):
-            if x not in ("0", "1", "2"):
+            if x not in ("0", "1", "2") and not d.get("tag", "").startswith("neartie"):
                 for r in ("0", "1", "2"):
                     e = dict(d)
                     e["pop"] = [list(q) for q in d["pop"]]
